@@ -199,6 +199,33 @@ def successors_of_reserved(limit):
     return sorted(set(out) - reserved)
 
 
+def check_casing(res):
+    """Names that differ only in letter case, in every order of arrival, with and without a keep file."""
+    groups = [[b'foo', b'Foo', b'FOO', b'fOO'], [b'x', b'X'], [b'zz', b'Zz', b'ZZ'], [b'a', b'A'], [b'print', b'Print', b'PRINT'],
+              [b'end_', b'End_', b'END_'], [b'self', b'Self']]
+    for keep in ([], [b'zz', b'foo'], [b'ZZ', b'A']):
+        for g in groups:
+            for order in itertools.permutations(g):
+                f = new_factory(keep, False)
+                res.evaluations += 1
+                got = {}
+                for n_ in order:
+                    got[n_] = f.get_short_name(n_)
+                again = {n_: f.get_short_name(n_) for n_ in order}
+                case = {'keep': keep, 'keep_all': False, 'hist': list(order)}
+                if again != got:
+                    res.violation('C02|casing|not-a-function', 'second lookup differs for %r' % (order,), case)
+                elif len(set(got.values())) != len(got):
+                    res.violation('C02|casing|collision', 'names differing only in letter case share an output name: %r (keep file %r)' % (
+                        got, keep), case)
+                else:
+                    bad = [n_ for n_ in order if n_ in keep and got[n_] != n_]
+                    if bad:
+                        res.violation('C02|casing|not-kept', 'kept name %r became %r' % (bad[0], got[bad[0]]), case)
+                    else:
+                        res.nontriv(('casing', tuple(keep), order))
+
+
 def check_alloc(n, res, keep=None):
     """n fresh names in sequence: injective, none reserved."""
     keep = [b'a', b'ba', b'zz'] if keep is None else keep
@@ -276,7 +303,11 @@ def check_program_map(prog, src, config, res, fam, out=None):
 
 EXTRA_PROGRAMS = [b'a=1 b=2 c=a+b\n', b'foo=1 a=foo b=a\n', b'zz=1 x=zz a=x\n', b'e1=1 q=e1 a=q b=a\n',
                   b'function o:m(p) self.f=p return o.f end\n', b'::top:: goto top\n', b'local t={x=1,y=2} t.x=t.y print(t.x)\n',
-                  b'x.a=1 y.a=2 a=3\n', b'for i=1,2 do local j=i i=j end\n'] + \
+                  b'x.a=1 y.a=2 a=3\n', b'for i=1,2 do local j=i i=j end\n',
+                  # identifiers that differ only in letter case are different identifiers
+                  b'Player=1 player=2 PLAYER=3 q=Player+player+PLAYER\n', b'X=1 x=2 q=X-x\n', b'MAX_HP=9 max_hp=1 Max_Hp=2 q=MAX_HP+max_hp+Max_Hp\n',
+                  b'::Top:: goto Top ::top:: goto top\n', b'o.Hp=1 o.hp=2 o:Get() o:get()\n', b'Print=1 print(Print) PRINT=2 print(PRINT)\n',
+                  b'function f(A,a) return A+a end\n'] + \
                  [b' '.join(b'v%d=%d' % (i, i) for i in range(n)) + b'\n' for n in (27, 60, 800)]
 
 
@@ -414,6 +445,7 @@ def run_shard(item):
                     break
         check_alloc(item[1], res)
         check_alloc(item[1], res, keep=successors_of_reserved(26 ** 3))
+        check_casing(res)
     elif kind == 'cli':
         cli_batch(res)
         res.sample({'cli': 'p8tool luamin / build --lua-minify x {default, --keep-all-names, --keep-names-from-file}'})
